@@ -75,6 +75,7 @@ func cmdCheck(args []string) {
 	only := fs.String("only", "", "run only configurations whose name contains this")
 	workers := fs.Int("workers", 16, "workers")
 	noEvidence := fs.Bool("no-evidence", false, "do not write the evidence file")
+	from := fs.Int("from", 0, "skip the first N configurations of the tier (to resume an interrupted sweep)")
 	listOnly := fs.Bool("list", false, "list the configuration names of the tier and exit")
 	fs.Parse(args)
 	if fs.NArg() < 1 {
@@ -129,6 +130,9 @@ func cmdCheck(args []string) {
 			}
 			cfgs = append(cfgs, c)
 		}
+	}
+	if *from > 0 && *from < len(cfgs) {
+		cfgs = cfgs[*from:]
 	}
 	if *listOnly {
 		for _, c := range cfgs {
